@@ -119,6 +119,8 @@ func init() {
 		"(*" + tgPath + ".ThreadGroup).StopChan":  noEffect,
 		"bytes.Equal":                             bytesEqual,
 		"io.ReadFull":                             ioReadFull,
+		"encoding/binary.Read":                    binaryRead,
+		"encoding/binary.Write":                   noEffect,
 		"(*os.File).Write":                        fsWrite,
 		"(*os.File).WriteAt":                      fsWrite,
 		"(*os.File).WriteString":                  fsWrite,
@@ -142,6 +144,12 @@ func init() {
 		"net/http.NewRequest":                valOrErr,
 		"(*archive/zip.Writer).CreateHeader": valOrErr,
 		"(*archive/zip.Writer).Create":       valOrErr,
+		"(*encoding/csv.Reader).Read":        csvRead,
+		"os.ReadFile":                        noEffect,
+		"io/ioutil.ReadFile":                 noEffect,
+		"crypto/rand.Int":                    randInt,
+		"math/big.NewInt":                    bigNewInt,
+		"(*math/big.Int).Int64":              bigInt64,
 		"net/http.Post":                      httpRespErr,
 		"net/http.Get":                       httpRespErr,
 		"(*net/http.Client).Do":              httpRespErr,
@@ -487,7 +495,9 @@ func connSetDeadline(ex *Exec, st *State, fr *Frame, callee *ssa.Function, args 
 }
 
 func (ex *Exec) needDeadline(st *State, fr *Frame, connV Val, what string, pos token.Pos) {
-	if !ex.lockChecks {
+	// the rule belongs to the server's shutdown claim (C12): goroutines that
+	// ThreadGroup.Stop waits for
+	if !ex.lockChecks || ex.top.Pkg == nil || ex.top.Pkg.Pkg.Name() != "server" {
 		return
 	}
 	h, ok := connV.(Sc)
@@ -528,4 +538,54 @@ func ioReadFull(ex *Exec, st *State, fr *Frame, callee *ssa.Function, args []Val
 		ex.assume(st, implies(eq(sc(a.F[1]).T, z64()), eq(sc(a.F[0]).T, ln)))
 	}
 	return res
+}
+
+// binary.Read(r, order, &x): fills *x with unconstrained data, or fails.
+func binaryRead(ex *Exec, st *State, fr *Frame, callee *ssa.Function, args []Val, c *ssa.CallCommon, pos token.Pos) Val {
+	// the destination travels inside an interface value
+	if h, ok := args[2].(Sc); ok {
+		if rec, has := ex.ifacePayload[h.T]; has {
+			ex.havocArg(st, rec.v, rec.t)
+		}
+	}
+	ex.vc.Trust("encoding/binary.Read fills its destination with unconstrained data or returns an error")
+	return ex.freshResults(st, c.Signature().Results(), "binread")
+}
+
+// csv.Reader.Read returns an error or a record with at least one field
+// (nothing is assumed about the number of columns).
+func csvRead(ex *Exec, st *State, fr *Frame, callee *ssa.Function, args []Val, c *ssa.CallCommon, pos token.Pos) Val {
+	v := ex.freshResults(st, c.Signature().Results(), "csv")
+	a := v.(*Agg)
+	rec := a.F[0].(*Agg)
+	ex.assume(st, implies(eq(sc(a.F[1]).T, z64()), and(app("bvsge", sc(rec.F[2]).T, bvInt(1, 64)), not(eq(sc(rec.F[0]).T, z64())))))
+	ex.vc.Trust("encoding/csv.Reader.Read returns an error or a record with at least one field (column count unconstrained)")
+	return v
+}
+
+// math/big values that the verified code only uses as bounded random indices:
+// an opaque handle with a ghost 64-bit value.
+func bigVal(ex *Exec, h string) string {
+	ex.vc.DeclareFun("BigVal", []Sort{SRef}, BV(64))
+	return app("BigVal", h)
+}
+
+func bigNewInt(ex *Exec, st *State, fr *Frame, callee *ssa.Function, args []Val, c *ssa.CallCommon, pos token.Pos) Val {
+	h := ex.vc.Fresh("big", SRef)
+	ex.assume(st, and(not(eq(h, z64())), eq(bigVal(ex, h), sc(args[0]).T)))
+	return Sc{h, SRef}
+}
+
+func bigInt64(ex *Exec, st *State, fr *Frame, callee *ssa.Function, args []Val, c *ssa.CallCommon, pos token.Pos) Val {
+	return Sc{bigVal(ex, sc(args[0]).T), BV(64)}
+}
+
+// crypto/rand.Int(r, max): a value in [0, max) or an error.
+func randInt(ex *Exec, st *State, fr *Frame, callee *ssa.Function, args []Val, c *ssa.CallCommon, pos token.Pos) Val {
+	h := ex.vc.Fresh("rnd", SRef)
+	e := ex.vc.Fresh("err", SRef)
+	mx := bigVal(ex, sc(args[1]).T)
+	ex.assume(st, implies(eq(e, z64()), and(not(eq(h, z64())), app("bvsle", z64(), bigVal(ex, h)), app("bvslt", bigVal(ex, h), mx))))
+	ex.vc.Trust("crypto/rand.Int returns an error or a value in [0, max)")
+	return &Agg{F: []Val{Sc{h, SRef}, Sc{e, SRef}}}
 }
